@@ -24,24 +24,26 @@ static struct {
 	int done_threads, total_threads;
 	int perform_count;
 	int body_sleeps;
+	int twice, bodies_ended;   // the same block object is submitted a second time (legal: wait/notify follow the first completion)
 } B;
 
 static void body(void) {
 	B.body_count++;
-	B.body_start = h_stamp();
+	if (!B.body_start) B.body_start = h_stamp();
 	h_log("body starts (run %d)", B.body_count);
-	if (B.body_count > 1) h_viol("body-twice", "the block object's body ran %d times although it was submitted once", B.body_count);
+	if (B.body_count > (B.twice ? 2 : 1)) h_viol("body-twice", "the block object's body ran %d times although it was submitted %s", B.body_count, B.twice ? "twice" : "once");
 	if (B.cancel_ret && B.cancel_ret < B.submit_call)
 		h_viol("cancelled-ran", "the body ran although dispatch_block_cancel had returned before the block was even submitted");
 	if (B.cm == CM_WHILE_GATED && B.cancel_ret)
 		h_viol("cancelled-ran", "the body ran although dispatch_block_cancel returned while the block was still queued behind a running item");
-	if (B.cm == CM_FROM_BODY) {
+	if (B.cm == CM_FROM_BODY && !B.cancel_call) {
 		B.cancel_call = h_stamp(); dispatch_block_cancel(B.b); B.cancel_ret = h_stamp();
 		if (!dispatch_block_testcancel(B.b)) h_viol("testcancel", "dispatch_block_testcancel returned 0 right after dispatch_block_cancel returned");
 	}
 	if (B.body_sleeps == 1) { sim_point(); sim_point(); }
 	else if (B.body_sleeps == 2) sim_sleep_ns(200 * USEC);
-	B.body_end = h_stamp();
+	if (!B.body_end) B.body_end = h_stamp();   // completion of the first execution to complete
+	B.bodies_ended++;
 	h_log("body ends");
 	h_progress();
 }
@@ -55,7 +57,7 @@ static void notify_fn(void *c) {
 	r->start = h_stamp(); r->count++;
 	h_log("notify block %d runs", (int)(r - B.n));
 	if (r->count > 1) h_viol("notify-twice", "a dispatch_block_notify block ran %d times", r->count);
-	if (B.body_count == 1 && !B.body_end) h_viol("notify-early", "notification ran while the block object's body was still running");
+	if (B.body_count >= 1 && !B.body_end) h_viol("notify-early", "notification ran before any execution of the block object had completed");
 	if (B.body_count == 0 && !B.cancel_call) h_viol("notify-early", "notification ran before the block object had executed and without any cancellation");
 	h_progress();
 }
@@ -85,8 +87,9 @@ static void *submitter(void *arg) {
 	}
 	B.submit_ret = h_stamp();
 	h_log("submit returned");
+	if (B.twice) { h_log("second submission (dispatch_async)"); dispatch_async(B.q[B.twice == 1 ? 2 : 0], B.b); }
 	sim_event_signal(&B.submitted);
-	if (SUB_IS_SYNC(B.sub) && B.body_count == 1 && !B.body_end)
+	if (SUB_IS_SYNC(B.sub) && B.body_count >= 1 && !B.body_end)
 		h_viol("sync-return", "%s of a block object returned before its body finished", subnames[B.sub]);
 	if (B.cm == CM_WHILE_GATED) {
 		sim_point();
@@ -131,7 +134,7 @@ static void *waiter(void *arg) {
 		B.wait_zero = 1; B.wait_zero_ret = h_stamp();
 	}
 	h_log("wait returned 0");
-	if (B.body_count == 1 && !B.body_end) h_viol("wait-early", "dispatch_block_wait returned 0 while the body was still running");
+	if (B.body_count >= 1 && !B.body_end) h_viol("wait-early", "dispatch_block_wait returned 0 before any execution of the body had completed");
 	if (B.body_count == 0 && !B.cancel_call) h_viol("wait-early", "dispatch_block_wait returned 0 before the block object executed (no cancellation was ever requested)");
 	if (B.body_count == 0 && !B.submit_call) h_viol("wait-early", "dispatch_block_wait returned 0 before the block object was submitted");
 	B.done_threads++; h_progress();
@@ -167,7 +170,7 @@ static void *tester(void *arg) {
 static bool blk_done(void *c) {
 	(void)c;
 	if (B.done_threads < B.total_threads) return false;
-	if (B.body_count && !B.body_end) return false;
+	if (B.bodies_ended < B.body_count) return false;
 	for (int i = 0; i < B.nn; i++) if (!B.n[i].count) return false;
 	// executed or skipped: observable through testable effects only; the waiter/notifier obligations cover it
 	return true;
@@ -181,13 +184,15 @@ static void c19_run(void) {
 	B.sub = (int)g_n(SUB_N); B.cm = (int)g_n(CM_N); B.qi = (int)g_n(3);
 	B.body_sleeps = (int)g_n(3);
 	if (B.cm == CM_WHILE_GATED) { B.qi = 1; if (SUB_IS_SYNC(B.sub) || B.sub == SUB_AFTER) B.sub = SUB_ASYNC; }
-	if (B.cm == CM_FROM_BODY && 0) B.cm = CM_NONE;
+	if (B.cm != CM_WHILE_GATED && B.cm != CM_BEFORE_SUBMIT && B.sub != SUB_DIRECT && g_chance(1, 4)) B.twice = 1 + (int)g_n(2);   // second submission to the concurrent (1) or global (2) queue
 	int have_waiter = g_chance(7, 10); B.nwaits = g_range(0, 4);
 	B.nn = g_range(0, 3);
 	int have_tester = g_chance(1, 2);
-	h_sample("block object flags=0x%lx%s, submitted by %s to q%d (0 global, 1 serial, 2 concurrent), %s, %s, %d notify, body %s\n",
+	// block.h: an object is either waited for / observed and executed once, or executed any number of times
+	if (B.twice) { have_waiter = 0; B.nn = 0; }
+	h_sample("block object flags=0x%lx%s, submitted by %s to q%d (0 global, 1 serial, 2 concurrent), %s, %s, %d notify, body %s%s\n",
 		(unsigned long)fl[B.flags_i], B.qos_i ? " +qos class" : "", subnames[B.sub], B.qi, cmnames[B.cm], have_waiter ? "one waiter" : "no waiter", B.nn,
-		B.body_sleeps == 0 ? "empty" : B.body_sleeps == 1 ? "yields" : "sleeps");
+		B.body_sleeps == 0 ? "empty" : B.body_sleeps == 1 ? "yields" : "sleeps", B.twice ? "; the same object is submitted a second time with dispatch_async" : "");
 	h_announce();
 	B.q[0] = dispatch_get_global_queue(0, 0);
 	B.q[1] = dispatch_queue_create("blk-serial", NULL);
@@ -210,14 +215,15 @@ static void c19_run(void) {
 		h_stuck("completion", b);
 	}
 	h_settle(20 * MSEC);
-	if (B.body_count > 1) h_viol("body-twice", "body ran %d times", B.body_count);
+	if (B.body_count > (B.twice ? 2 : 1)) h_viol("body-twice", "body ran %d times", B.body_count);
 	{
 		// nothing may have observed the execution yet: give the queue the liveness bound
 		uint64_t t0 = sim_now();
-		while (((B.body_count == 0 && !B.cancel_call) || (B.body_count == 1 && !B.body_end)) && sim_now() - t0 < LIVENESS_NS) sim_sleep_ns(50 * MSEC);
-		if (!B.body_count && !B.cancel_call) h_stuck("never-ran", "an uncancelled block object was submitted but its body never ran");
+		int want = B.twice ? 2 : 1;
+		while (((B.body_count < want && !B.cancel_call) || B.bodies_ended < B.body_count) && sim_now() - t0 < LIVENESS_NS) sim_sleep_ns(50 * MSEC);
+		if (B.body_count < want && !B.cancel_call) h_stuck("never-ran", "an uncancelled block object was submitted but its body did not run for every submission");
 	}
-	if (B.body_count == 1 && !B.body_end) h_stuck("interrupted", "the body started but did not finish");
+	if (B.bodies_ended < B.body_count) h_stuck("interrupted", "the body started but did not finish");
 	for (int i = 0; i < B.nn; i++) {
 		if (B.n[i].count != 1) h_viol("notify-count", "notification %d ran %d times", i, B.n[i].count);
 		if (B.body_count && B.n[i].start < B.body_end) h_viol("notify-early", "notification %d ran before the block object's first execution had completed", i);
@@ -229,8 +235,9 @@ static void c19_run(void) {
 	if (B.perform_count != before + 1) h_viol("perform", "dispatch_block_perform ran its block %d times", B.perform_count - before);
 	RES.counters[0] = B.body_count; RES.counters[1] = B.cancel_call != 0; RES.counters[2] = B.wait_zero; RES.counters[3] = B.nn;
 	RES.counters[4] = (B.cancel_call && B.body_count == 0);
-	RES.nontrivial = (B.wait_zero || B.nn) && sim_st.switches > 6;
+	RES.counters[5] = B.twice != 0;
+	RES.nontrivial = (B.wait_zero || B.nn || B.twice) && sim_st.switches > 6;
 }
-static const char *const c19_names[] = { "bodies_run", "runs_with_cancel", "waits_returned_zero", "notifications", "cancelled_before_start_runs", NULL };
+static const char *const c19_names[] = { "bodies_run", "runs_with_cancel", "waits_returned_zero", "notifications", "cancelled_before_start_runs", "double_submission_runs", NULL };
 const prop_def prop_C19 = { "C19", NULL, c19_run, c19_names,
-	"non-trivial: a wait returned zero or a notification was registered, and more than 6 context switches happened; distinct = distinct schedule signatures among those" };
+	"non-trivial: a wait returned zero, a notification was registered or the object was submitted twice, and more than 6 context switches happened; distinct = distinct schedule signatures among those" };
